@@ -30,6 +30,7 @@
 #include <xercesc/util/regx/RegxDefs.hpp>
 #include <xercesc/util/regx/TokenInc.hpp>
 #include <xercesc/framework/XMLErrorCodes.hpp>
+#include <limits.h>
 
 namespace XERCES_CPP_NAMESPACE {
 
@@ -422,11 +423,11 @@ Token* RegxParser::parseFactor() {
                        && (ch = fString[fOffset++]) >= chDigit_0
                        && ch <= chDigit_9) {
 
+                    if (min > (INT_MAX - (ch - chDigit_0)) / 10)
+                        ThrowXMLwithMemMgr1(ParseException, XMLExcepts::Parser_Quantifier5, fString, fMemoryManager);
+
                     min = min*10 + ch - chDigit_0;
                 }
-
-                if (min < 0)
-                    ThrowXMLwithMemMgr1(ParseException, XMLExcepts::Parser_Quantifier5, fString, fMemoryManager);
             }
             else {
                 ThrowXMLwithMemMgr1(ParseException, XMLExcepts::Parser_Quantifier1, fString, fMemoryManager);
@@ -446,12 +447,13 @@ Token* RegxParser::parseFactor() {
                            && (ch = fString[fOffset++]) >= chDigit_0
                            && ch <= chDigit_9) {
 
+                        if (max > (INT_MAX - (ch - chDigit_0)) / 10)
+                            ThrowXMLwithMemMgr1(ParseException, XMLExcepts::Parser_Quantifier5, fString, fMemoryManager);
+
                         max = max*10 + ch - chDigit_0;
                     }
 
-                    if (max < 0)
-                        ThrowXMLwithMemMgr1(ParseException, XMLExcepts::Parser_Quantifier5, fString, fMemoryManager);
-                    else if (min > max)
+                    if (min > max)
                         ThrowXMLwithMemMgr1(ParseException, XMLExcepts::Parser_Quantifier4, fString, fMemoryManager);
                 }
                 else {
